@@ -72,6 +72,7 @@ R2 = {
     "C01_8": "flag-environment stream: model / policy / adapter / watcher reloaded or replaced while the enforcer is disabled",
     "C11_7": "file-failure stream: an unparsable line after a prefix of good rules (failure WHILE reading)",
     "C05_7": "conditional-domain stream: link conditions registered / re-parameterised for other domains (g = _, _, _, (_, _))",
+    "C13_7": "table-isolation stream: a built-in re-registered on ONE enforcer of the process, the others (built before / afterwards / model set again) must keep the documented pattern language (failing input instead of only a broken table tie)",
     "C20_5": "AsyncEnforcer with a watcher whose operation-specific callbacks are plain functions; callbacks record malformed arguments instead of failing",
 }
 for sid in sorted(os.listdir(os.path.join(VERIF, "seeded"))):
